@@ -16,6 +16,7 @@ import Rooc.Proofs.RefLemmas
 import Rooc.Proofs.RatInst
 import Rooc.Proofs.Compose
 import Rooc.Proofs.ComposeExamples
+import Rooc.Proofs.ComposeSemExamples
 namespace Rooc.Props.C03
 open Rooc Rooc.Sem Rooc.Ref Rooc.Exp
 
@@ -532,6 +533,69 @@ example (t : ℚ) (ht : 0 ≤ t) (n : Nat) {lm : LinModel (Ext ℚ)}
   cases this
 
 end examples
+
+/-! ### the chain closed for rooc's own simplex: source model → `Compile.linearize` → `to_standard_form` →
+tableau loop → mapped-back point
+
+For the built-in simplex at exact arithmetic the solver contract is not an assumption: `Rooc.Props.C05.
+slow_simplex_linOptimal_exact` / `slow_simplex_linUnbounded_exact` (C13 ∘ C14 through the by-name/positional adapter
+`Rooc/Proofs/ComposeSem.lean`) prove it.  Composed with the theorems above this gives an end-to-end statement about
+the SOURCE model.  Hypotheses on the compiled model `lm` (all decidable on the computed `lm`; their discharge from
+C08's well-formedness theorems for continuous sources is planned): `StdSem.WF lm`, distinct names, `DomVars`, `NNOK`;
+and the interface `CanonicalFor T (stdK s)` (provided by `slow_simplex_direct_start_partial` for the direct start). -/
+section EndToEnd
+open Tableau TabSem StdSem StdMain Standardize ComposeSimplex ComposeSem
+attribute [local instance] exactArith
+
+/-- **source optimum from the built-in simplex, exact arithmetic.**  If the loop stops `Finished` on a canonical
+feasible tableau of the standard form of the compiled model, the by-name point it returns satisfies the SOURCE model,
+`optimal_value` is the source objective there, and no assignment satisfying the source is strictly better. -/
+theorem c03_slow_simplex_end_to_end_partial {m : Model (Ext K)} {t : K} (ht : 0 ≤ t) {maxSteps : Nat}
+    {lm : LinModel (Ext K)} (h : Compile.linearize m (.fin t) maxSteps = .ok lm)
+    (hm : FragModel true m m.domain) (hok : DeclOK m.domain)
+    (hint : ∀ an, pipelineAnalyzer m (.fin t) maxSteps = some an → IntRangesInBox an m.domain)
+    (hW : WF lm) (hnn : ∀ d ∈ lm.domain, NNOK d.ty) (hdv : DomVars lm) (hnd : lm.vars.Nodup)
+    {s : StdModel (Ext K)} (hs : standardize lm = .ok s) {T : Tab K} (hT : CanonicalFor T (stdK s))
+    (stallExtra limit : Nat) (prefer : List Nat)
+    (hfin : (solve (0:K) stallExtra limit prefer T).result = .ok ()) :
+    srcFeasible m (pointOf lm.vars (preimage lm (basicSolution (solve (0:K) stallExtra limit prefer T).final))) = true ∧
+    eval (pointOf lm.vars (preimage lm (basicSolution (solve (0:K) stallExtra limit prefer T).final))) m.objective =
+      some (optimalValue (solve (0:K) stallExtra limit prefer T).final) ∧
+    ∀ ρ : String → K, srcFeasible m ρ = true → ∀ u, eval ρ m.objective = some u →
+      better m.optType u (optimalValue (solve (0:K) stallExtra limit prefer T).final) = false := by
+  obtain ⟨ho, hv⟩ := simplex_linOptimal hW hnn hdv hnd hs hT stallExtra limit prefer hfin
+  obtain ⟨hs', he, _, hbest⟩ := c03_compile_optimal_partial ht h hm hok hint ho
+  rw [hv] at he
+  exact ⟨hs', he, fun ρ hρ u hu => hbest ρ hρ u _ hu he⟩
+
+/-- **source unboundedness from the built-in simplex, exact arithmetic.** -/
+theorem c03_slow_simplex_unbounded_end_to_end_partial {m : Model (Ext K)} {t : K} (ht : 0 ≤ t) {maxSteps : Nat}
+    {lm : LinModel (Ext K)} (h : Compile.linearize m (.fin t) maxSteps = .ok lm)
+    (hm : FragModel true m m.domain) (hok : DeclOK m.domain)
+    (hint : ∀ an, pipelineAnalyzer m (.fin t) maxSteps = some an → IntRangesInBox an m.domain)
+    (hW : WF lm) (hnn : ∀ d ∈ lm.domain, NNOK d.ty) (hdv : DomVars lm) (hnd : lm.vars.Nodup)
+    {s : StdModel (Ext K)} (hs : standardize lm = .ok s) {T : Tab K} (hT : CanonicalFor T (stdK s))
+    (stallExtra limit : Nat) (prefer : List Nat)
+    (hunb : (solve (0:K) stallExtra limit prefer T).result = .error .unbounded) : SrcUnbounded m :=
+  (c03_compile_unbounded_partial ht h hm hok hint).mp
+    (simplex_linUnbounded hW hnn hdv hnd hs hT stallExtra limit prefer hunb)
+
+/-- non-vacuity (`K = ℚ`, every tolerance `t ≥ 0`, step limit 0): `max x s.t. c: x ≤ 2`, `x` NonNegativeReal.  Every
+hypothesis of `c03_slow_simplex_end_to_end_partial` holds JOINTLY — the pipeline returns `exMax`, its standard form is
+`exMaxStd`, `exTM` is canonical for it, the loop stops `Finished` — and the conclusion reads: `x = 2` satisfies the
+source, the source objective there is the reported value 2, no satisfying assignment has a larger objective. -/
+example (t : ℚ) (ht : 0 ≤ t) :
+    srcFeasible exSrc (pointOf ["x"] [2]) = true ∧ eval (pointOf ["x"] [2]) exSrc.objective = some 2 ∧
+    ∀ ρ : String → ℚ, srcFeasible exSrc ρ = true → ∀ u, eval ρ exSrc.objective = some u → u ≤ 2 := by
+  have h := c03_slow_simplex_end_to_end_partial ht (exSrc_compile (.fin t)) exSrc_frag exSrc_declOK
+    (fun an _ => intRangesInBox_of_noInt exSrc_noInt an) exMax_wf exMax_nnok exMax_domVars exMax_nodup exMax_std
+    exTM_canonicalFor 1 10 [] exTM_solve.1
+  rw [exTM_solve.2, exTM'_preimage, exTM'_value] at h
+  refine ⟨h.1, h.2.1, fun ρ hρ u hu => ?_⟩
+  have := h.2.2 ρ hρ u hu
+  simpa [exSrc, better_max] using this
+
+end EndToEnd
 end Composition
 
 end Rooc.Props.C03
